@@ -200,6 +200,8 @@ fn execute(plan: &Plan, prof: &Profile, sched_rng: &mut Rng, forced: Option<&[St
     let rx_noise = prof.rx_noise;
     let all_done = Arc::new(AtomicUsize::new(0));
     let mut workers: Vec<Box<dyn FnOnce() + Send>> = Vec::new();
+    let tx_flag = worlds[plan.tx_tid].tx_woken.clone();
+    let tx_log_for_obs = logs[plan.tx_tid].clone();
     crate::seq::WAKE_LOG.lock().unwrap().clear();
     crate::seq::STEP_NOW.store(0, Ordering::SeqCst);
     for (tid, (prog, mut w)) in plan.progs.iter().cloned().zip(worlds.drain(..)).enumerate() {
@@ -354,6 +356,7 @@ fn execute(plan: &Plan, prof: &Profile, sched_rng: &mut Rng, forced: Option<&[St
     let mut forced_pos = 0usize;
     let mut two_parties: Option<String> = None;
     let mut order_violation: Option<String> = None;
+    let mut missed_wake: Option<String> = None;
     let mut causes: Vec<String> = Vec::new();
     let timeouts = prof.timeouts;
     let taken = {
@@ -364,6 +367,11 @@ fn execute(plan: &Plan, prof: &Profile, sched_rng: &mut Rng, forced: Option<&[St
         let tokens_ref = &mut sched_tokens;
         let two_ref = &mut two_parties;
         let order_ref = &mut order_violation;
+        let missed_ref = &mut missed_wake;
+        let mut parked: Vec<Option<u32>> = vec![None; plan.progs.len()];
+        let mut handback: Vec<bool> = vec![false; plan.n];
+        let mut published: Vec<(usize, usize)> = Vec::new();
+        let tx_tid_obs = plan.tx_tid;
         let causes_ref = &mut causes;
         let mut inside: Vec<(usize, usize, &'static str)> = Vec::new();
         let mut prev_states: Vec<u8> = (0..main.n).map(|k| main.slot(k).0).collect();
@@ -501,6 +509,37 @@ fn execute(plan: &Plan, prof: &Profile, sched_rng: &mut Rng, forced: Option<&[St
                         }
                     }
                 }
+                // a frame that became Sendable while the transmit side sleeps must have woken it: if the TX task's last
+                // scan found nothing (it would go to sleep now), it has not started another one, its "woken" bit is
+                // clear, and a slot is Sendable for a reason other than TX's own hand-back after a failed send, the
+                // wake-up was issued too early (before the state was published) or not at all
+                parked[tid] = now_at;
+                for (k, a, b) in &changed {
+                    if *b == 2 {
+                        handback[*k] = *a == 3;
+                    } else {
+                        handback[*k] = false;
+                    }
+                }
+                for (k, a, b) in &changed {
+                    if *b == 2 && *a != 3 {
+                        published.push((*k, tid));
+                    }
+                }
+                // judged when the publishing thread has FINISHED the operation that published (its wake_sender() call,
+                // which follows the status store, is then behind it)
+                if now_at == Some(100) || now_at.is_none() {
+                    let mine: Vec<usize> = published.iter().filter(|(_, t)| *t == tid).map(|(k, _)| *k).collect();
+                    published.retain(|(_, t)| *t != tid);
+                    if missed_ref.is_none() && tid != tx_tid_obs && parked[tx_tid_obs] == Some(100) && !tx_flag.0.load(Ordering::SeqCst) {
+                        let last_none = tx_log_for_obs.lock().unwrap().last().map(|o| o.op.starts_with("tn,") && o.out == "none").unwrap_or(false);
+                        if last_none {
+                            if let Some(k) = mine.iter().find(|k| states[**k] == 2 && !handback[**k]) {
+                                *missed_ref = Some(format!("slot {k} was made Sendable by thread {tid}, but the transmit side, whose last scan found nothing, was not woken after the state was published"));
+                            }
+                        }
+                    }
+                }
                 // lifecycle order (independent of the model): every observed status change must be an edge of the
                 // documented lifecycle (incl. the failure / retry / abandonment edges and RX handing back a claim, RxBusy -> Sent, fix 646e830f). A release store over
                 // Sending / RxBusy is the known abandonment-inside-the-window class and is attributed below.
@@ -588,6 +627,9 @@ fn execute(plan: &Plan, prof: &Profile, sched_rng: &mut Rng, forced: Option<&[St
     let mut rep = Stage(&mut staged);
     if let Some(t) = &two_parties {
         rep.fail(&format!("{}/two-parties", prof.key), t, &line);
+    }
+    if let Some(t) = &missed_wake {
+        rep.fail(&format!("{}/missed-tx-wake", prof.key), t, &line);
     }
     if let Some(t) = &order_violation {
         rep.fail(&format!("{}/lifecycle-order", prof.key), t, &line);
